@@ -193,6 +193,9 @@ UNITS = [
                     # success means: the very cell that was passed is stored at the index that was passed, which is in range
                     (['C14'], '''r is Ok ==> (cell_index(old(vm).heap_spec(), arg(*old(vm), 2)) matches Some(i) && cell_vector(old(vm).heap_spec(), arg(*old(vm), 3)) matches Some(v)
                         && i < vlen(v) && vector_written(*v, i as int, arg(*old(vm), 1)) && popped(*old(vm), *final(vm), 4))'''),
+                    # an in-range store is never refused
+                    (['C14'], '''(arg(*old(vm), 0) == VCell::ArgumentCount(3) && has_args(*old(vm), 4)
+                        && (cell_index(old(vm).heap_spec(), arg(*old(vm), 2)) matches Some(i) && cell_vector(old(vm).heap_spec(), arg(*old(vm), 3)) matches Some(v) && i < vlen(v))) ==> r is Ok'''),
                 ],
             },
             '::vector_mut_copy': {
